@@ -17,9 +17,9 @@ def run(ctx):
     ctx.assume(*_pipe.ASSUME)
     ctx.not_claimed(_pipe.OUTSIDE)
     C = []
-    ks = [31, 32, 17, 25, 39] if q else list(range(len(P.HOLES)))
+    ks = [31, 32, 17, 25, 39] if q else list(range(0, len(P.HOLES), 2)) + [31, 33, 35, 37]
     if not q:
-        C += PC.text_holes(ctx, own, ks, vis=(4,), timeout=2400)
+        C += PC.text_holes(ctx, own, ks, vis=(4,), timeout=900)
     C += PC.spell_holes(ctx, own, range(0, len(P.SPELL), 2) if q else range(len(P.SPELL)))
     C += PC.label_holes(ctx, own, [P.skel('f"a'), P.skel("f'''"), P.skel('((((')] + _pipe.pick(ctx, 1, len(P.SKELS)) if q else range(len(P.SKELS)),
                         vis=(4,) if q else (0, 4, 8))
